@@ -192,6 +192,15 @@ class _Reader:
     def readlines(self):
         return self.read().splitlines(True)
 
+    def readline(self):
+        d = self.data
+        i = d.find("\n")
+        if i < 0:
+            self.data = ""
+            return d
+        self.data = d[i + 1:]
+        return d[:i + 1]
+
     def __iter__(self):
         return iter(self.readlines())
 
